@@ -7,11 +7,12 @@ import (
 	"strings"
 
 	"github.com/ipld/go-ipld-prime/datamodel"
+	"github.com/ipld/go-ipld-prime/schema"
 )
 
 // AsmOp is one call of an assembler history (mirrors Ipld.Asm.Op of the Lean model).
 type AsmOp struct {
-	Kind string // BM BL AK AV AE A AN F
+	Kind string // BM BL AK AV AE A AN F, and R: Reset() on the root builder
 	Hint int64
 	Key  []byte
 	V    Val
@@ -49,7 +50,7 @@ func ParseOps(toks []string) ([]AsmOp, error) {
 		t := toks[0]
 		toks = toks[1:]
 		switch {
-		case t == "AK" || t == "AV" || t == "F":
+		case t == "AK" || t == "AV" || t == "F" || t == "R":
 			ops = append(ops, AsmOp{Kind: t})
 		case t == "AE":
 			if len(toks) == 0 || toks[0][0] != 's' {
@@ -98,6 +99,20 @@ func ClassifyAsmErr(err error) string {
 		return "e:wrongKind"
 	}
 	return "e:other"
+}
+
+// keyAssemblyEnded: the refusal is one by which a key assembler ends (the map assembler expects a key again): besides the
+// repeated key, generated code's refusal of a key that is no field / no discriminant / a second key of a union.  A
+// wrong-kind refusal leaves the key assembler waiting.
+func keyAssemblyEnded(err error) bool {
+	if err == nil {
+		return false
+	}
+	var ik schema.ErrInvalidKey
+	var ikp *schema.ErrInvalidKey
+	var nu schema.ErrNotUnionStructure
+	var nup *schema.ErrNotUnionStructure
+	return errors.As(err, &ik) || errors.As(err, &ikp) || errors.As(err, &nu) || errors.As(err, &nup)
 }
 
 type gframe struct {
@@ -165,9 +180,40 @@ func RunOps(nb datamodel.NodeBuilder, ops []AsmOp, mkNode func(Val) (datamodel.N
 		}
 		return "panic", false
 	}
-	for _, op := range ops {
+	laterReset := func(i int) bool {
+		for _, op := range ops[i+1:] {
+			if op.Kind == "R" {
+				return true
+			}
+		}
+		return false
+	}
+	skipping := false // a call panicked (or was misuse the harness does not make): nothing is called until the next Reset
+	for i, op := range ops {
 		var out string
 		cont := true
+		if op.Kind == "R" {
+			// Reset() on the root builder: legal in any state; what follows is a new history
+			func() {
+				defer func() {
+					if r := recover(); r != nil {
+						out, cont = "panic", false
+					}
+				}()
+				nb.Reset()
+				out = "reset"
+			}()
+			outs = append(outs, out)
+			frames, rootDone, skipping = nil, false, false
+			if !cont {
+				return outs, "unfinished"
+			}
+			continue
+		}
+		if skipping {
+			outs = append(outs, "skipped")
+			continue
+		}
 		func() {
 			defer func() {
 				if r := recover(); r != nil {
@@ -206,20 +252,23 @@ func RunOps(nb datamodel.NodeBuilder, ops []AsmOp, mkNode func(Val) (datamodel.N
 					out, cont = "panic", false
 				}
 			case f.isMap && f.phase == 1:
+				var kerr error
 				switch op.Kind {
 				case "A":
 					if op.V.K == '[' || op.V.K == '{' {
 						out, cont = "panic", false
 						return
 					}
-					out = ClassifyAsmErr(assignScalar(f.cur, op.V))
+					kerr = assignScalar(f.cur, op.V)
+					out = ClassifyAsmErr(kerr)
 				case "AN":
 					n, err := mkNode(op.V)
 					if err != nil {
 						out, cont = "harness:"+err.Error(), false
 						return
 					}
-					out = ClassifyAsmErr(f.cur.AssignNode(n))
+					kerr = f.cur.AssignNode(n)
+					out = ClassifyAsmErr(kerr)
 				case "BM":
 					_, err := f.cur.BeginMap(op.Hint)
 					out = ClassifyAsmErr(err)
@@ -236,10 +285,10 @@ func RunOps(nb datamodel.NodeBuilder, ops []AsmOp, mkNode func(Val) (datamodel.N
 					out, cont = "panic", false
 					return
 				}
-				switch out {
-				case "ok":
+				switch {
+				case out == "ok":
 					f.phase = 2
-				case "e:repeatedKey":
+				case out == "e:repeatedKey" || keyAssemblyEnded(kerr):
 					f.phase = 0
 				}
 			case f.isMap && f.phase == 2:
@@ -273,8 +322,14 @@ func RunOps(nb datamodel.NodeBuilder, ops []AsmOp, mkNode func(Val) (datamodel.N
 		}()
 		outs = append(outs, out)
 		if !cont {
-			return outs, "unfinished"
+			if !laterReset(i) {
+				return outs, "unfinished"
+			}
+			skipping = true
 		}
+	}
+	if skipping {
+		return outs, "unfinished"
 	}
 	if len(frames) == 0 && rootDone {
 		func() {
@@ -492,11 +547,21 @@ func TasmLine(engine string, t *SType, ops []AsmOp) string {
 	return "tasm.run " + engine + " " + t.Tokens() + " OPS " + OpsLine(ops)
 }
 
+// TasmLineLvl is the case line for a history on the builder of t at the level ("type" | "repr": Model/TypedAssembler.lean,
+// Model/ReprAssembler.lean).
+func TasmLineLvl(engine, lvl string, t *SType, ops []AsmOp) string {
+	if lvl == "type" {
+		return TasmLine(engine, t, ops)
+	}
+	return "tasm.run " + engine + " " + lvl + " " + t.Tokens() + " OPS " + OpsLine(ops)
+}
+
 // TasmCompare compares what a typed builder answered call by call (RunOps' form: "<out…> | <final>") with the model's
 // answer.  exact: every outcome token must be the model's (the engine's error classes are modelled); otherwise accepted /
-// refused / panic must agree and the repeated-key class where either side reports it.  The comparison ends without a
-// verdict on the rest where the model says `unclaimed` (it makes no claim after a refused AssignNode the engine leaves
-// half done) or where the harness could not make the call (`harness:…`).  "" = agree (or the type is outside the model).
+// refused / panic must agree and the repeated-key class where either side reports it.  No verdict is given on the calls
+// from one the model answers `unclaimed` (it makes no claim after a refused AssignNode the engine leaves half done), or
+// the harness could not make (`harness:…`), up to the next Reset (`reset`) - on the rest and the result if there is none.
+// "" = agree (or the type is outside the model).
 func TasmCompare(impl, model string, exact bool) string {
 	if model == "unsupported" {
 		return ""
@@ -516,12 +581,28 @@ func TasmCompare(impl, model string, exact bool) string {
 		}
 		return o
 	}
-	for j := 0; j < len(ic) || j < len(mc); j++ {
-		if j < len(mc) && mc[j] == "unclaimed" {
-			return ""
+	laterReset := func(j int) bool {
+		for _, o := range mc[min(j+1, len(mc)):] {
+			if o == "reset" {
+				return true
+			}
 		}
-		if j < len(ic) && strings.HasPrefix(ic[j], "harness:") {
-			return ""
+		return false
+	}
+	ignoring := false
+	for j := 0; j < len(ic) || j < len(mc); j++ {
+		if j < len(mc) && mc[j] == "reset" {
+			ignoring = false
+		}
+		if ignoring {
+			continue
+		}
+		if j < len(mc) && mc[j] == "unclaimed" || j < len(ic) && strings.HasPrefix(ic[j], "harness:") {
+			if !laterReset(j) {
+				return ""
+			}
+			ignoring = true
+			continue
 		}
 		if j >= len(ic) || j >= len(mc) {
 			return fmt.Sprintf("call %d: one side stopped", j)
@@ -530,10 +611,77 @@ func TasmCompare(impl, model string, exact bool) string {
 			return fmt.Sprintf("call %d: impl %s, model %s", j, ic[j], mc[j])
 		}
 	}
+	if mp[1] == "unclaimed" {
+		return "" // the history ends in a state the model makes no claim about
+	}
 	if ip[1] != mp[1] {
 		return "result: impl " + ip[1] + ", model " + mp[1]
 	}
 	return ""
+}
+
+// TasmEnginesPart: the first call which the models of the two engines answer differently (accepted / refused) for a reason
+// that is no finding - where a key that cannot get a value is refused (generated code: at the key; the reflection binding:
+// at the value), BeginMap on a representation that is no map.  The builder contract does not say which is right, so the
+// contract's machine (`ideal`) is no oracle from that call on.  -1: none (a difference that IS a finding - a repeated key
+// accepted, a refused AssignNode left half done - is not one of these).
+func TasmEnginesPart(bindModel, genModel, idealModel string) int {
+	bm, gm, im := strings.Fields(strings.SplitN(bindModel, " | ", 2)[0]), strings.Fields(strings.SplitN(genModel, " | ", 2)[0]), strings.Fields(strings.SplitN(idealModel, " | ", 2)[0])
+	cls := func(o string) string {
+		if strings.HasPrefix(o, "e:") && o != "e:repeatedKey" {
+			return "refused"
+		}
+		return o
+	}
+	for j := 0; j < len(bm) && j < len(gm); j++ {
+		if gm[j] == "unclaimed" || bm[j] == "unclaimed" {
+			return -1
+		}
+		if cls(bm[j]) != cls(gm[j]) {
+			if j < len(im) && im[j] == "e:repeatedKey" {
+				return -1 // the contract pins the repeated key: the engine that accepts it deviates
+			}
+			return j
+		}
+	}
+	return -1
+}
+
+// TasmUpTo: the answer cut before call j (the result left open)
+func TasmUpTo(ans string, j int) string {
+	p := strings.SplitN(ans, " | ", 2)
+	t := strings.Fields(p[0])
+	if j < len(t) {
+		t = t[:j]
+	}
+	return strings.Join(t, " ") + " | (open)"
+}
+
+// PlainReprType: the fragment of schemas whose REPRESENTATION-level builders the model covers (Lean: RAsm.plainR):
+// everything but `any` and the listpairs representation.
+func PlainReprType(t *SType) bool {
+	switch t.K {
+	case "any":
+		return false
+	case "list", "map":
+		return t.Elem != nil && PlainReprType(t.Elem)
+	case "struct":
+		if t.SRepr == "listpairs" {
+			return false
+		}
+		for _, f := range t.Fields {
+			if !PlainReprType(f.T) {
+				return false
+			}
+		}
+	case "union":
+		for _, m := range t.Members {
+			if !PlainReprType(m.T) {
+				return false
+			}
+		}
+	}
+	return true
 }
 
 // PlainType: the fragment of schemas whose type-level builders the typed-assembler model covers (Lean: TAsm.plain):
